@@ -69,6 +69,9 @@ impl Memtable {
 
     /// Creates an iterator over all items.
     pub fn iter(&self) -> impl DoubleEndedIterator<Item = InternalValue> + '_ {
+        #[cfg(feature = "verif")]
+        crate::verif::yield_point("memtable.iter");
+
         self.items.iter().map(|entry| InternalValue {
             key: entry.key().clone(),
             value: entry.value().clone(),
@@ -80,6 +83,9 @@ impl Memtable {
         &'a self,
         range: R,
     ) -> impl DoubleEndedIterator<Item = InternalValue> + 'a {
+        #[cfg(feature = "verif")]
+        crate::verif::yield_point("memtable.range");
+
         self.items.range(range).map(|entry| InternalValue {
             key: entry.key().clone(),
             value: entry.value().clone(),
@@ -91,6 +97,9 @@ impl Memtable {
     /// The item with the highest seqno will be returned, if `seqno` is None.
     #[doc(hidden)]
     pub fn get(&self, key: &[u8], seqno: SeqNo) -> Option<InternalValue> {
+        #[cfg(feature = "verif")]
+        crate::verif::yield_point("memtable.get");
+
         if seqno == 0 {
             return None;
         }
@@ -144,6 +153,9 @@ impl Memtable {
     /// Inserts an item into the memtable
     #[doc(hidden)]
     pub fn insert(&self, item: InternalValue) -> (u64, u64) {
+        #[cfg(feature = "verif")]
+        crate::verif::yield_point("memtable.insert");
+
         #[expect(
             clippy::expect_used,
             reason = "keys are limited to 16-bit length + values are limited to 32-bit length"
